@@ -176,7 +176,7 @@ def run(rep, tier, parts=("jit", "jit-base", "ctor", "interp", "cranelift")):
                         got = [strip(a).get("v") for a in n["args"] if strip(a).get("k") == "lit" and strip(a).get("lk") == "bool"]
             rep.ob(rw, "%s::jit_compile" % kind, got == want, "%s::jit_compile flags (use_mbuff, update_data_ptr)" % kind, expected=want, found=got)
         import props.c10 as c10j
-        for kind in ("EbpfVmMbuff", "EbpfVmFixedMbuff"):
+        for kind in ("EbpfVmMbuff", "EbpfVmFixedMbuff", "EbpfVmRaw", "EbpfVmNoData"):
             pathj = kind + "::execute_program_jit"
             fn = F.fns.get(pathj)
             ok, found = False, "missing"
@@ -186,9 +186,10 @@ def run(rep, tier, parts=("jit", "jit-base", "ctor", "interp", "cranelift")):
                 evj = symex.Evaluator(F)
                 aj = [evj.sym_for("a%d" % i, q["ty"]) for i, q in enumerate(fn["thir"]["params"][1:])]
                 _k, _sv, outs = c10j.run_method(evj, F, pathj, aj)
-                mem = aj[0]
-                ln = ("call", "len", (mem,), 64)
-                empty = T.cmp("eq", 64, ln, T.K(64, 0))
+                # (the wrappers of the raw and no-data VMs are evaluated through whatever they delegate to)
+                mem = aj[0] if aj else None
+                ln = ("call", "len", (mem,), 64) if aj else T.K(64, 0)
+                empty = T.cmp("eq", 64, ln, T.K(64, 0)) if aj else None
                 probs, ncalls = [], 0
                 for v, st in outs:
                     for e in st.effects:
@@ -200,7 +201,7 @@ def run(rep, tier, parts=("jit", "jit-base", "ctor", "interp", "cranelift")):
                             probs.append("%d arguments" % len(args_))
                             continue
                         is_null = T.is_k(args_[2]) and args_[2][2] == 0 or (isinstance(args_[2], tuple) and args_[2][0] == "call" and str(args_[2][1]).endswith(("ptr::null_mut", "ptr::null")))
-                        if empty in st.conds:
+                        if empty is None or empty in st.conds:
                             if not is_null:
                                 probs.append("empty packet: pointer argument is %s" % repr(args_[2])[:60])
                         elif T.lnot(empty) in st.conds:
@@ -210,7 +211,7 @@ def run(rep, tier, parts=("jit", "jit-base", "ctor", "interp", "cranelift")):
                             probs.append("the call does not depend on the packet being empty")
                         if args_[3] != ln:
                             probs.append("length argument is not mem.len()")
-                ok = ncalls >= 2 and not probs
+                ok = ncalls >= (2 if aj else 1) and not probs
                 found = sorted(set(probs)) or "%d invoking paths: null for an empty packet, mem.as_ptr() otherwise" % ncalls
             rep.ob(rw, "%s::execute_program_jit/null" % kind, ok, "%s::execute_program_jit passes a null packet pointer for an empty packet" % kind,
                    expected="packet pointer = null when mem is empty, mem.as_ptr() otherwise; length = mem.len()", found=found)
@@ -326,13 +327,57 @@ def run(rep, tier, parts=("jit", "jit-base", "ctor", "interp", "cranelift")):
         ok, found = _prelude(cc)
         rep.ob(rcl, "prelude-regions", ok, "Cranelift prelude region variables and r10", expected="see C11/R11.d", found=found)
         Fc = cc.F
-        fn = Fc.fns.get("EbpfVmMbuff::execute_program_cranelift")
-        ok2 = False
-        if fn:
-            for n in walk(fn["thir"]["body"]):
-                if n.get("k") == "call" and (callee_path(n) or "").endswith("CraneliftProgram::execute"):
-                    a = [repr(x) for x in n["args"][1:]]
-                    ok2 = len(a) == 4 and "mem_ptr" in a[0] and "'mem'" in a[1] and "mbuff" in a[2] and "mbuff" in a[3]
+        # evaluated, for every kind of VM (the raw and no-data wrappers through whatever they delegate to): each path
+        # that runs the compiled program passes (packet pointer - null for an empty packet -, packet length, metadata
+        # pointer, metadata length)
+        import props.c10 as c10c
+        wrap_bad, wrap_n = {}, 0
+        for kind in ("EbpfVmMbuff", "EbpfVmFixedMbuff", "EbpfVmRaw", "EbpfVmNoData"):
+            pathc = kind + "::execute_program_cranelift"
+            fnw = Fc.fns.get(pathc)
+            if not fnw:
+                wrap_bad[kind] = ["missing"]
+                continue
+            evw = symex.Evaluator(Fc, opaque_calls=lambda q: q.endswith("CraneliftProgram::execute"))
+            aw = [evw.sym_for("a%d" % i, q["ty"]) for i, q in enumerate(fnw["thir"]["params"][1:])]
+            _k, _sv, outs = c10c.run_method(evw, Fc, pathc, aw)
+            memw = aw[0] if aw else None
+            lnw = ("call", "len", (memw,), 64) if aw else T.K(64, 0)
+            emptyw = T.cmp("eq", 64, lnw, T.K(64, 0)) if aw else None
+            probs, ncalls = [], 0
+            for v, st in outs:
+                for e in st.effects:
+                    if not (e[0] == "call" and isinstance(e[1], str) and e[1].endswith("CraneliftProgram::execute")):
+                        continue
+                    ncalls += 1
+                    xs = list(e[2])[1:]
+                    if len(xs) != 4:
+                        probs.append("%d arguments" % len(xs))
+                        continue
+                    is_null = (T.is_k(xs[0]) and xs[0][2] == 0) or (isinstance(xs[0], tuple) and xs[0][0] == "call" and str(xs[0][1]).endswith(("ptr::null_mut", "ptr::null")))
+                    if emptyw is None or emptyw in st.conds:
+                        if not is_null:
+                            probs.append("empty packet: pointer argument is %s" % repr(xs[0])[:60])
+                    elif T.lnot(emptyw) in st.conds:
+                        if xs[0] != ("call", "as_ptr", (memw,), 64):
+                            probs.append("non-empty packet: pointer argument is %s" % repr(xs[0])[:60])
+                    else:
+                        probs.append("the call does not depend on the packet being empty")
+                    if xs[1] != lnw:
+                        probs.append("packet length argument is not mem.len()")
+                    mb = xs[2][2][0] if isinstance(xs[2], tuple) and xs[2][0] == "call" and xs[2][1] == "as_ptr" else None
+                    if xs[3] == T.K(64, 0) and kind in ("EbpfVmRaw", "EbpfVmNoData"):
+                        pass        # no metadata: a zero length makes the compiled code ignore the pointer
+                    elif mb is None or xs[3] != ("call", "len", (mb,), 64):
+                        probs.append("metadata pointer / length are not the as_ptr() / len() of one buffer")
+                    elif kind == "EbpfVmMbuff" and mb != aw[1]:
+                        probs.append("metadata buffer is not the caller's")
+            if ncalls < (2 if aw else 1):
+                probs.append("%d invoking paths" % ncalls)
+            wrap_n += ncalls
+            if probs:
+                wrap_bad[kind] = sorted(set(probs))
+        ok2 = not wrap_bad
         found, good = _pointer_stores(Fc, "EbpfVmFixedMbuff::execute_program_cranelift")
         rep.ob(rd, "EbpfVmFixedMbuff::execute_program_cranelift", good,
                "EbpfVmFixedMbuff::execute_program_cranelift: on every path that runs the program, little-endian u64 writes into the internal buffer",
@@ -355,6 +400,7 @@ def run(rep, tier, parts=("jit", "jit-base", "ctor", "interp", "cranelift")):
                         bad.setdefault(tuple(diffs[:2]), []).append(sreg)
                 rep.ob(rlc, "opc=%#04x" % v, not bad, "opcode %#04x (%s): Cranelift template vs interpreter for %d index registers" % (v, d["kind"], len(list(srcs))),
                        expected="equal effect summaries", found=[(list(k), regs) for k, regs in bad.items()][:2] or "agree")
-        rep.ob(rcl, "wrapper-args", ok2, "EbpfVmMbuff::execute_program_cranelift argument order", expected="(mem_ptr, mem.len(), mbuff.as_ptr(), mbuff.len())", found=ok2)
+        rep.ob(rcl, "wrapper-args", ok2, "execute_program_cranelift of every kind of VM: arguments handed to the compiled program",
+               expected="(null for an empty packet else mem.as_ptr(), mem.len(), mbuff.as_ptr(), mbuff.len())", found=wrap_bad or "%d invoking paths agree" % wrap_n)
     rep.trust("rustc front end / typed THIR", "x86model.py", "SysV argument registers at JIT entry", "byteorder::LittleEndian::write_u64")
     rep.assume("overlapping offsets are excluded by the statement", "allocation failure for huge offsets is out of scope")
